@@ -77,6 +77,18 @@ CHECKS = {
    note="float64 at 1e-10; taus in [1e-3, 1e3].",
    technique="TLA+ tape/path-algebra spec + TLC program enumeration replayed on the real residual ops",
    design="4/C06"),
+ "C18": dict(
+   spec="spec/TrackScales.tla, TrackScales_MC.tla, TrackScales_Trace.tla",
+   text="TrackScales contains a reverse-mode interpreter over small integer vectors and the instrumentation rule of run_node (identity tracker after every float node). TLC checks for every program with <= 2 ops (thorough: 3 ops by simulation), fan-out, bool masks, detached branches and 1-2 outputs that instrumentation leaves values and input gradients unchanged, that the tracker sees the value that flowed and the TOTAL gradient (summed over all consumers), and that non-float values are never instrumented; a detaching tracker is refuted. Real module graphs (direct backend, analyse_module's interpreter, TorchDynamo track_scales) are run with and without tracking (bitwise comparison) and every recorded metric is validated by TrackScales_Trace against integer sums captured independently with a plain fx.Interpreter + retain_grad.",
+   note="Integer-valued tensors (|v| <= 64) make mean_abs/abs_mean/abs_max/abs_min/numel exact rationals; std is compared through std^2 n(n-1) with a slack of 8 + exact/2^18 (metrics are float32). Graphs leaving the exact range are skipped and counted.",
+   technique="TLA+ reverse-mode interpreter spec + TLC; trace validation of recorded metrics against independently captured tensors",
+   design="4/C18"),
+ "C19": dict(
+   spec="spec/FxGraph.tla, Prune.tla, Prune_MC.tla, Prune_Trace.tla",
+   text="FxGraph models torch.fx graphs (ordered node list, nested arguments, replace-all-uses, erase-needs-no-users); Prune models _prune and the three helpers one loop iteration per step, next to a declarative statement (never raises, well-formed, original order, exactly the documented removals, single-float-input nodes bypassed wherever they occur, edges preserved). TLC checks all tracked graphs with <= 2 (thorough 3: 471k states) op nodes incl. list arguments, keyword tensors, non-float nodes, 1-2 outputs, 2 rtols, 3 target sets, and refutes the two pre-fix deviations. Tracked graphs of random real modules (ScaleTrackingBackend forward+backward, and track_scales through TorchDynamo) are pruned by the real helpers for rtol in {2^-16,2^-8,2^-2} and random target sets; input graph, result, input graph afterwards and any exception are validated by Prune_Trace (node list, order, every argument position, immutability of the input).",
+   note="Metrics come from integer-valued tensors (power-of-two numel) so mean_abs is an exact small rational; (graph, rtol) pairs within 1e-9 of the isclose threshold are skipped.",
+   technique="TLA+ graph-rewriting spec + TLC over all small graphs; trace validation of real pruning runs",
+   design="4/C19"),
 }
 CHECKS = dict(sorted(CHECKS.items()))
 
